@@ -6,7 +6,9 @@ import (
 	"encoding/hex"
 	"fmt"
 	"os"
+	"runtime"
 	"sort"
+	"strings"
 	"sync"
 	"sync/atomic"
 	"time"
@@ -31,7 +33,9 @@ import (
 type stubTM struct {
 	client.Client
 	synced int32
-	mu     sync.Mutex
+	// autoSend != 0: the module's automatic claim / proof sender is allowed to run (it then also sees "caught up")
+	autoSend int32
+	mu       sync.Mutex
 	sent   [][]byte // transactions the node itself broadcast (automatic claims and proofs), oldest first
 }
 
@@ -53,8 +57,30 @@ func (s *stubTM) TakeSent() [][]byte {
 	return out
 }
 
+// ConsensusReactorStatus: "caught up" is reported to the relay handler while a relay operation is in progress. The
+// per-block goroutine of the pocketcore module (automatic claim / proof sender, wakes 2-5 s of wall clock after each
+// EndBlock) is told "catching up" unless autoSend is on, so that it cannot touch the evidence store at a moment the
+// scripts do not control.
 func (s *stubTM) ConsensusReactorStatus() (*ctypes.ResultConsensusReactorStatus, error) {
-	return &ctypes.ResultConsensusReactorStatus{IsCatchingUp: atomic.LoadInt32(&s.synced) == 0}, nil
+	synced := atomic.LoadInt32(&s.synced) != 0
+	if synced && atomic.LoadInt32(&s.autoSend) == 0 {
+		pcs := make([]uintptr, 16)
+		k := runtime.Callers(2, pcs)
+		fromRelay := false
+		frames := runtime.CallersFrames(pcs[:k])
+		for {
+			f, more := frames.Next()
+			if strings.HasSuffix(f.Function, ".HandleRelay") || strings.HasSuffix(f.Function, ".HandleChallenge") {
+				fromRelay = true
+				break
+			}
+			if !more {
+				break
+			}
+		}
+		synced = fromRelay
+	}
+	return &ctypes.ResultConsensusReactorStatus{IsCatchingUp: !synced}, nil
 }
 
 // GenesisTime is the block time of height 0; block times advance from here (2015: after the fake clock's 2009, before now).
